@@ -32,7 +32,7 @@ func init() {
 
 func runC20(c *core.Ctx) {
 	c.Rule("C20.route", "A6/A3: ServeMux.Handle is called only from addRawRoute (and the mux's own HandleFunc, which nobody calls); on every path the handler registered is wrappers*(authenticate(authorize|authorizeForward(<the route's handler>), h, requireAuth)) and requireAuth is false only when authentication is off or the route bypasses it with pprof exposed")
-	c.Rule("C20.authn", "A1: in authenticate's handler the inner handler is called exactly once on success paths: with AdminUser iff ¬requireAuthentication, else with the user returned by Authenticate/User/SubscriptionUser on that call's nil-error path; no inner call after an HttpError (the default arm is dead: every credentials.Method written in the package has a case)")
+	c.Rule("C20.authn", "A1: in authenticate's handler the inner handler is called exactly once on success paths: with AdminUser iff ¬requireAuthentication, else with the user returned by Authenticate/User/SubscriptionUser on that call's nil-error path; no inner call after an HttpError; a bearer token's user is served only on paths where the token's exp claim was found present and positive (the default arm is dead: every credentials.Method written in the package has a case)")
 	c.Rule("C20.authz", "A2: in authorize/authorizeForward the inner handler is called iff authorizeRequest(r,user) returned nil, with the same request (and user)")
 	c.Rule("C20.method", "A7: requiredPrivilegeForHTTPMethod = {HEAD,OPTIONS→none; GET→read; POST,PATCH,PUT→write; DELETE→delete; else error}")
 	c.Rule("C20.request", "A3/A1: authorizeRequest authorises Action{Resource: APIResource(TrimPrefix(r.URL.Path, BasePath)), Privilege: requiredPrivilegeForHTTPMethod(r.Method)} and returns nil only when both the privilege lookup and AuthorizeAction returned nil")
@@ -273,6 +273,21 @@ func c20Authn(c *core.Ctx, httpd *packages.Package) {
 					}
 				}
 			}
+			// the bearer token's expiry claim: presence (comma-ok of the type assertion) and sign
+			if strings.Contains(a.Key, `["exp"].(float64)`) {
+				switch {
+				case strings.HasSuffix(a.Key, `["exp"].(float64).1`):
+					return "exp:present", false
+				case a.Op == token.LEQ && strings.HasSuffix(a.L, `["exp"].(float64).0`) && (a.R == "0.0" || a.R == "0"):
+					return "exp:nonpositive", false
+				case a.Op == token.GTR && strings.HasSuffix(a.L, `["exp"].(float64).0`) && (a.R == "0.0" || a.R == "0"):
+					return "exp:nonpositive", true
+				case a.Op == token.LSS && strings.HasSuffix(a.R, `["exp"].(float64).0`) && (a.L == "0.0" || a.L == "0"):
+					return "exp:nonpositive", true // the engine's normal form of exp <= 0 is ¬(0 < exp)
+				case a.Op == token.GEQ && strings.HasSuffix(a.R, `["exp"].(float64).0`) && (a.L == "0.0" || a.L == "0"):
+					return "exp:nonpositive", false
+				}
+			}
 			if a.Op == token.EQL && strings.HasSuffix(a.L, ".Method") && strings.HasSuffix(a.R, "Authentication") {
 				return "method:" + a.R[strings.LastIndex(a.R, ".")+1:], false
 			}
@@ -334,7 +349,7 @@ func c20Authn(c *core.Ctx, httpd *packages.Package) {
 	}
 	c.Floor("C20.authn", "credentials.Method values written", len(written), 3)
 
-	nInner := 0
+	nInner, nBearer := 0, 0
 	for _, p := range paths {
 		a := p.Assign()
 		// paths on which no method case matched are infeasible when the enumeration holds
@@ -392,9 +407,21 @@ func c20Authn(c *core.Ctx, httpd *packages.Package) {
 			c.Fail("C20.authn", cons+"#user", ev.Pos, "with authentication required the inner handler runs with user %q (source error tested nil: %v) on path [%s]", user, decided && !se, p.Cond())
 			continue
 		}
+		// a bearer token is a credential only with an expiry: the jwt library validates exp only when the claim is present, so
+		// the user named by the token may be served only on paths where the claim was found present and positive
+		if an.CallResultOf(user, "User", 0) {
+			nBearer++
+			present, d1 := a["exp:present"]
+			nonpos, d2 := a["exp:nonpositive"]
+			if !(d1 && present && d2 && !nonpos) {
+				c.Fail("C20.authn", cons+"#token-expiry", ev.Pos, "a bearer token is accepted on a path that did not establish a present, positive exp claim (present decided %v=%v, non-positive decided %v=%v): a token signed with the shared secret but without exp never expires and is served as whatever user it names, admin included; path [%s]", d1, present, d2, nonpos, p.Cond())
+				continue
+			}
+		}
 		c.Ok("C20.authn", cons+"#served")
 	}
 	c.Floor("C20.authn", "paths calling the inner handler", nInner, 4)
+	c.Floor("C20.authn", "paths serving a bearer token's user", nBearer, 1)
 }
 
 func countPrefix(a map[string]bool, pre string) int {
